@@ -194,7 +194,8 @@ theorem pstep_core (r : Id) (s s' : State) (p : Peer) (st : PStep) (rest : List 
   · simp only [EP, hc, hr, hpk, rinfo_of_table ht]
     exact Nat.le_refl _
 
-theorem inv2_pubStep {r : Id} {s s' : State} {p : Peer} (hi : Inv2 r s) (h : pubStep s p = some s') : Inv2 r s' := by
+theorem pstepR_pubStep {r : Id} {s s' : State} {p : Peer} (hi : Inv2 r s) (h : pubStep s p = some s') :
+    PStepR r p s s' := by
   unfold pubStep at h
   simp only at h
   split at h
@@ -219,7 +220,7 @@ theorem inv2_pubStep {r : Id} {s s' : State} {p : Peer} (hi : Inv2 r s) (h : pub
       cases st with
       | emitBs id n =>
         simp only at h; cases h
-        refine hi.pstep (pstep_core r s _ p _ rest hi hq hw' (getMQ s p).pubWait [] 0 (hmq _) (by rw [List.append_nil]; rfl) (by simp) (by simp [fromN]) rfl rfl
+        refine (pstep_core r s _ p _ rest hi hq hw' (getMQ s p).pubWait [] 0 (hmq _) (by rw [List.append_nil]; rfl) (by simp) (by simp [fromN]) rfl rfl
           ?_ ?_ ?_ hwfs (by simp [pend, cnfQ]))
         · show List.countP (cancEv r) (s.events ++ List.replicate n (Event.bs id)) = List.countP (cancEv r) s.events
           rw [List.countP_append, countP_replicate_false _ _ rfl]; rfl
@@ -230,13 +231,13 @@ theorem inv2_pubStep {r : Id} {s s' : State} {p : Peer} (hi : Inv2 r s) (h : pub
           rw [List.countP_append, countP_replicate_false _ _ rfl]
       | emitDone id code =>
         simp only at h; cases h
-        exact hi.pstep (pstep_core r s _ p _ rest hi hq hw' (getMQ s p).pubWait [] 0 (hmq _) (by rw [List.append_nil]; rfl) (by simp) (by simp [fromN]) rfl rfl
+        exact (pstep_core r s _ p _ rest hi hq hw' (getMQ s p).pubWait [] 0 (hmq _) (by rw [List.append_nil]; rfl) (by simp) (by simp [fromN]) rfl rfl
           (by show (emit _ _).events.countP _ = _; rw [countP_emit]; rfl)
           (by show (emit _ _).events.countP _ = _; rw [countP_emit]; rfl)
           (by show (emit _ _).events.countP _ = _; rw [countP_emit]; rfl) hwfs (by simp [pend, cnfQ]))
       | emitNerr id =>
         simp only at h; cases h
-        refine hi.pstep (pstep_core r s _ p _ rest hi hq hw' (getMQ s p).pubWait [] (if id == r then 1 else 0) (hmq _)
+        refine (pstep_core r s _ p _ rest hi hq hw' (getMQ s p).pubWait [] (if id == r then 1 else 0) (hmq _)
           (by rw [List.append_nil]; rfl) (by simp) (by simp [fromN]) rfl rfl
           (by show (emit _ _).events.countP _ = _; rw [countP_emit]; rfl)
           (by show (emit _ _).events.countP _ = _; rw [countP_emit]; rfl)
@@ -250,7 +251,7 @@ theorem inv2_pubStep {r : Id} {s s' : State} {p : Peer} (hi : Inv2 r s) (h : pub
       | callClose id inc =>
         simp only at h; cases h
         have hpm : pend r p [Msg.closeNetErr id inc p] = (id == r) := by simp [pend, closeFrom]
-        refine hi.pstep (pstep_core r s _ p _ rest hi hq hw' true [.closeNetErr id inc p] 0 (hmq true) rfl ?_
+        refine (pstep_core r s _ p _ rest hi hq hw' true [.closeNetErr id inc p] 0 (hmq true) rfl ?_
           (by simp [fromN, anyFrom]) rfl rfl rfl rfl rfl ?_ ?_)
         · intro m hm p' hne
           simp only [List.mem_singleton] at hm; subst hm
@@ -270,13 +271,16 @@ theorem inv2_pubStep {r : Id} {s s' : State} {p : Peer} (hi : Inv2 r s) (h : pub
       | callTerminate id inc =>
         simp only at h; cases h
         have hpm : pend r p [Msg.terminate id inc p] = false := by simp [pend, closeFrom]
-        refine hi.pstep (pstep_core r s _ p _ rest hi hq hw' true [.terminate id inc p] 0 (hmq true) rfl ?_
+        refine (pstep_core r s _ p _ rest hi hq hw' true [.terminate id inc p] 0 (hmq true) rfl ?_
           (by simp [fromN, anyFrom]) rfl rfl rfl rfl rfl ?_ ?_)
         · intro m hm p' hne
           simp only [List.mem_singleton] at hm; subst hm
           simpa [anyFrom] using fun e => hne e.symm
         · rw [hpm]; exact hwfs
         · rw [hpm]; simp [cnfQ]
+
+theorem inv2_pubStep {r : Id} {s s' : State} {p : Peer} (hi : Inv2 r s) (h : pubStep s p = some s') : Inv2 r s' :=
+  hi.pstep (pstepR_pubStep hi h)
 
 -- ------------------------------------------------------------------ the manager handles a message
 def pubMsg : Msg → Bool
